@@ -108,8 +108,12 @@ def name_steps(kinds, rng, suffix_mode):
             r = rng.random()
             if r < 0.35 and k not in used:
                 n = k
-            elif r < 0.7:
+            elif r < 0.6:
                 n = f"{k}.{i}"
+            elif r < 0.7:
+                # "xxx can be any string": a suffix that spells (or contains) the name of ANOTHER kind of step
+                other = rng.choice(["validation", "multiscale", "matching_cost", "filter", "disparity", "refinement"])
+                n = f"{k}.{rng.choice(['', 'before_', 'no_', 'for_'])}{other}"
             elif r < 0.85:
                 n = f"{k}.s{i}.t"
             else:
